@@ -6,3 +6,8 @@ open Bec2Verif.Props.C13
 #print axioms compat_concat
 #print axioms maps_pinned
 #print axioms unknown_tagtype_rejected
+#print axioms memimage_extents
+#print axioms emit_component
+#print axioms emit_ignored
+#print axioms marker_required
+#print axioms emit_empty_rejected
